@@ -422,11 +422,21 @@ def parse(text):
     return t
 
 
+def _date_shaped(t):
+    """DATE(y,m,d) of three whole-number literals: the text a date literal prints as. A function node of that shape and a
+    date literal have the same text, so both sides of the comparison are taken to the literal (a quotient, applied to the
+    expected and the parsed tree alike); DATE(1.5,1,1) or DATE(0,13,1) can only be a function call and stays one."""
+    if not (t[1] == "DATE" and len(t[2]) == 3 and all(a and a[0] == "num" and Decimal(a[1]) == int(Decimal(a[1])) for a in t[2])):
+        return False
+    y, m, d = (int(Decimal(a[1])) for a in t[2])
+    return 1 <= y <= 9999 and 1 <= m <= 12 and 1 <= d <= 31  # what a date literal can print; anything else is a call
+
+
 def strip(t):
     """Parsed tree -> comparison form (DATE(y,m,d) of literals is a date literal)."""
     k = t[0]
     if k == "fn":
-        if t[1] == "DATE" and len(t[2]) == 3 and all(a and a[0] == "num" for a in t[2]):
+        if _date_shaped(t):
             return ("date", tuple(int(a[1]) for a in t[2]))
         return ("fn", t[1], [None if a is None else strip(a) for a in t[2]])
     if k == "bin":
@@ -444,6 +454,8 @@ def expect(t):
     """Generated tree -> comparison form."""
     k = t[0]
     if k == "fn":
+        if _date_shaped(t):
+            return ("date", tuple(int(Decimal(a[1])) for a in t[2]))
         args = [None if a is None else expect(a) for a in t[2]]
         if args == [None]:
             args = []  # F(<empty>) prints as F(): no text can tell the two apart
